@@ -14,6 +14,7 @@ set_option linter.unusedVariables false
 open Ns
 
 namespace Bridge
+open Robust
 
 def secI (t : TyInfo) (s : SecInfo) : SecI := ⟨t.name, t.major, t.minor, false, none, s.extent, !s.sealed⟩
 def compI (t : TyInfo) : CompI :=
@@ -41,20 +42,29 @@ def genPair (a b : CompI) : Py.M Unit :=
 
 theorem assert_false : Py.assert false = .error .assertion := rfl
 
-theorem section_ok (a b : TyInfo) (sa sb : SecInfo) (hn : a.name = b.name) (hm : a.major = b.major) (hmin : a.minor ≠ b.minor) :
-    Gen.Namespace.pairwise_section (fun _ _ => throw (.other "unreachable")) (secI a sa) (secI b sb)
-      = lift (secPair a.major sa sb) := by
-  have hb : (a.minor != b.minor) = true := by simp [hmin]
-  simp only [Gen.Namespace.pairwise_section, secI, hn, hm, hb, beq_self_eq_true, assert_true, ok_bind, bne_iff_ne, ne_eq, hmin,
-    not_false_eq_true, decide_true, bne_self_eq_false, Bool.false_eq_true, if_false, if_true, Bool.and_self, Bool.not_true, secPair]
-  by_cases h0 : b.major > 0 <;> by_cases he : sa.extent = sb.extent <;> by_cases hs : sa.sealed = sb.sealed <;>
-    simp [h0, he, hs, hb, lift, errOf]
+/-! ### The pairwise minor-version check
 
+  Both sides are evaluated outright: the major version is a numeral pattern (zero / successor), every other atom of the rule (service
+  flags, port-IDs, order of the minor versions, extents, sealing) a case, and `simp` computes the generated program and the model in each
+  case.  Nothing depends on how the generated `if`s are nested, which branch is the `else`, or whether an early `return` is used. -/
+
+theorem lift_ite (c : Prop) [Decidable c] (x y : Except Err Unit) : lift (if c then x else y) = if c then lift x else lift y := by
+  split <;> rfl
+theorem lift_ok : lift (.ok ()) = .ok () := rfl
+theorem lift_error (e : Err) : lift (.error e) = .error (errOf e) := rfl
 theorem lift_bind_ok (x : Except Err Unit) (y : Py.M Unit) :
     (lift x >>= fun _ => y) = match x with | .ok () => y | .error e => .error (errOf e) := by
   cases x with
   | ok u => cases u; rfl
   | error e => rfl
+
+theorem section_ok (a b : TyInfo) (sa sb : SecInfo) (hn : a.name = b.name) (hm : a.major = b.major) (hmin : a.minor ≠ b.minor) :
+    Gen.Namespace.pairwise_section (fun _ _ => throw (.other "unreachable")) (secI a sa) (secI b sb)
+      = lift (secPair a.major sa sb) := by
+  have hbe : (a.minor == b.minor) = false := by simp [hmin]
+  unfold Gen.Namespace.pairwise_section
+  rcases hM : b.major with _ | k <;> by_cases he : sa.extent = sb.extent <;> cases hsa : sa.sealed <;> cases hsb : sb.sealed <;>
+    simp [secI, secPair, hn, hm, hM, hbe, he, hsa, hsb, lift, errOf, bne, ↓decide_eq_true_eq, throw_err, err_bind]
 
 /-- `_ensure_minor_version_compatibility_pairwise` as generated (two levels: a service recurses once into its request and
     response sections) computes the model's `minorPair`, error class by error class. -/
@@ -62,57 +72,55 @@ theorem pair_ok (a b : TyInfo) (hn : a.name = b.name) (hm : a.major = b.major) :
     genPair (compI a) (compI b) = lift (minorPair a b) := by
   by_cases hmin : a.minor = b.minor
   · simp [genPair, Gen.Namespace.pairwise, compI, hn, hm, hmin, minorPair, lift, errOf, assert_false]
-  have hb : (a.minor != b.minor) = true := by simp [hmin]
   have hbe : (a.minor == b.minor) = false := by simp [hmin]
-  simp only [genPair, Gen.Namespace.pairwise, minorPair, hbe, Bool.false_eq_true, if_false]
-  simp only [compI, hn, hm, hb, beq_self_eq_true, assert_true, ok_bind]
+  have hsec := fun sa sb => section_ok a b sa sb hn hm hmin
+  unfold genPair Gen.Namespace.pairwise
+  simp only [compI, secI, minorPair, minorSecs, minorPidBad, hm] at hsec ⊢
   by_cases hk : a.isService = b.isService
-  · simp only [hk, bne_self_eq_false, Bool.false_eq_true, if_false, ok_bind, Bool.and_self]
-    simp only [section_ok a b _ _ hn hm hmin, minorPidBad, minorSecs, hk, Bool.and_self]
-    cases hs : b.isService <;> cases ha : a.fpid <;> cases hbf : b.fpid <;> by_cases hgt : a.minor > b.minor <;>
-      by_cases h0 : b.major > 0 <;> by_cases he : a.req.extent = b.req.extent <;> by_cases hse : a.req.sealed = b.req.sealed <;>
-      by_cases her : a.resp.extent = b.resp.extent <;> by_cases hsr : a.resp.sealed = b.resp.sealed <;>
-      simp [secPair, lift, errOf, hm, hgt, h0, he, hse, her, hsr, ha, hbf, lift_bind_ok] <;>
-      (try split) <;> simp_all
-  · have : (a.isService != b.isService) = true := by simp [hk]
-    simp [this, lift, errOf]
+  · cases hs : b.isService
+    · -- two messages: the port-ID rule, then the extent / sealing rule on the types themselves
+      rcases ha : a.fpid with _ | p <;> rcases hbf : b.fpid with _ | q <;> by_cases hgt : a.minor > b.minor <;>
+        rcases hM : b.major with _ | k <;> by_cases he : a.req.extent = b.req.extent <;> by_cases hse : a.req.sealed = b.req.sealed <;>
+        simp [secPair, lift, errOf, hn, hk, hs, hM, hbe, hgt, he, hse, ha, hbf, bne, ↓decide_eq_true_eq, throw_err, err_bind] <;>
+        (try split) <;> simp_all <;> omega
+    · -- two services: the port-ID rule, then whatever the recursion into request and response says
+      simp only [hsec]
+      generalize secPair b.major a.req b.req = x
+      generalize secPair b.major a.resp b.resp = y
+      rcases ha : a.fpid with _ | p <;> rcases hbf : b.fpid with _ | q <;> by_cases hgt : a.minor > b.minor <;>
+        rcases x with e | ⟨⟨⟩⟩ <;> rcases y with e' | ⟨⟨⟩⟩ <;>
+        simp [lift, errOf, hn, hk, hs, hbe, hgt, ha, hbf, bne, ↓decide_eq_true_eq, throw_err, err_bind] <;>
+        (try split) <;> simp_all <;> omega
+  · have : (a.isService == b.isService) = false := by simp [hk]
+    simp [hn, hbe, this, lift, errOf, bne, throw_err, err_bind]
 
-/-- a checking loop: the first element on which the body raises decides -/
-theorem forEach_check {α : Type} (l : List α) (p : α → Bool) (e : Py.Err) (body : Unit → α → Py.M Unit)
-    (h : ∀ x, body () x = if p x then .error e else .ok ()) :
-    Py.forEach l () body = if l.any p then .error e else .ok () := by
-  unfold Py.forEach
-  induction l with
-  | nil => rfl
-  | cons a l ih =>
-    rw [List.foldlM_cons, h a]
-    by_cases hp : p a = true
-    · simp [hp]
-    · simp only [hp, Bool.false_eq_true, if_false, ok_bind, List.any_cons, Bool.false_or]
-      simpa using ih
+/-! ### The port-ID collision check
 
-def collidesI (a b : CompI) : Bool :=
-  ((a.is_service == b.is_service) && ((a.full_name != b.full_name) || ((a.major != b.major) && (decide (a.major > 0) && decide (b.major > 0)))))
-    && (a.has_fixed_port_id && b.has_fixed_port_id) && (a.fixed_port_id == b.fixed_port_id)
-
-theorem collidesI_compI (a b : TyInfo) : collidesI (compI a) (compI b) = portPairBad a b := by
-  simp only [collidesI, compI, portPairBad]
-  cases a.fpid <;> cases b.fpid <;> simp
+  The generated function is a pair of nested loops that only check.  Whatever its shape (a boolean expression, nested `if`s, a chain of
+  early `continue`s, a pre-filtered candidate list), it raises nothing but `FixedPortIDCollisionError` (`only_throws`, structural), and
+  whether it raises is a boolean formula over the pairs (`raises_forEach_unit`, `raises_ite`, …: computed by `simp`), which is compared with
+  the model's `portPairBad` pair by pair, by cases on the atoms. -/
 
 theorem collisions_ok (ts : List TyInfo) :
     Gen.Namespace.ensure_no_fixed_port_id_collisions (ts.map compI) = lift (checkPortIdCollisions ts) := by
-  simp only [Gen.Namespace.ensure_no_fixed_port_id_collisions]
-  rw [forEach_check (ts.map compI) (fun a => (ts.map compI).any (collidesI a)) (.other "FixedPortIDCollisionError")]
-  · simp only [checkPortIdCollisions, List.any_map, Function.comp_def, collidesI_compI]
-    by_cases h : (ts.any fun a => ts.any fun b => portPairBad a b) = true <;> simp [h, lift, errOf]
-  · intro a
-    rw [forEach_check (ts.map compI) (collidesI a) (.other "FixedPortIDCollisionError")]
-    · by_cases h : ((ts.map compI).any (collidesI a)) = true <;> simp [h]
-    · intro b
-      simp only [collidesI]
-      by_cases h1 : (a.is_service == b.is_service &&
-            (a.full_name != b.full_name || a.major != b.major && (decide (a.major > 0) && decide (b.major > 0)))) = true <;>
-        by_cases h2 : (a.has_fixed_port_id && b.has_fixed_port_id) = true <;>
-        by_cases h3 : (a.fixed_port_id == b.fixed_port_id) = true <;> simp [h1, h2, h3]
+  have hE : onlyThrows (.other "FixedPortIDCollisionError") (Gen.Namespace.ensure_no_fixed_port_id_collisions (ts.map compI)) := by
+    unfold Gen.Namespace.ensure_no_fixed_port_id_collisions
+    only_throws
+  have hR : raises (Gen.Namespace.ensure_no_fixed_port_id_collisions (ts.map compI))
+      = ts.any (fun a => ts.any (fun b => portPairBad a b)) := by
+    unfold Gen.Namespace.ensure_no_fixed_port_id_collisions
+    simp only [↓raises_ite, ↓decide_eq_true_eq, raises_bind_unit, raises_forEach_unit, raises_ok, raises_pure, raises_throw, raises_error,
+      pure_eq_ok, throw_err, Bool.or_false, Bool.false_or, List.any_map, List.any_filter, Function.comp_def, and_any, List.filter_map]
+    apply any_any_congr
+    intro a b
+    obtain ⟨an, aM, am, af, asv, ar, ars, ap, aroot⟩ := a
+    obtain ⟨bn, bM, bm, bf, bsv, br, brs, bp, broot⟩ := b
+    simp only [compI, portPairBad]
+    cases af <;> cases bf <;> cases asv <;> cases bsv <;>
+      by_cases hn : an = bn <;> by_cases hm : aM = bM <;> by_cases ha : 0 < aM <;> by_cases hb : 0 < bM <;>
+      simp_all [Nat.lt_min, bne, Bool.beq_eq_decide_eq] <;> omega
+  rw [eq_of_onlyThrows hE, hR]
+  unfold checkPortIdCollisions
+  by_cases h : (ts.any fun a => ts.any fun b => portPairBad a b) = true <;> simp [h, lift, errOf]
 
 end Bridge
